@@ -9,6 +9,13 @@
 //	mux-tls     p2p/muxer/yamux glue, go-yamux) over Noise / TLS
 //	host-noise  two real basic hosts: NewStream after identify returns the lazy-multistream streamWrapper, the
 //	host-tls    listener's handler is reached through the real multistream negotiation; one protocol id per stream
+//	host-quic   the same two basic hosts over ONE QUIC connection (simhost QUIC: true, NoTCPListen: true): real
+//	            p2p/transport/quic + quicreuse + quic-go (its own TLS 1.3, its own streams) over simnet's UDP model, 1-4
+//	            streams through swarm_stream.go / basic_host.go. crypto/rand is pinned for these runs (simrand). One
+//	            writer per stream direction: quic-go documents no atomicity of a Write against a concurrent Write on the
+//	            same stream (its writeOnce channel is a guard "to protect against concurrent use", not a promise). A swarm-
+//	            only QUIC layer is not built: QUIC announces a stream with its first STREAM frame, so streams can only be
+//	            told apart by protocol id, i.e. through the host.
 //
 // (tcpreuse's sampledconn lives in an internal package and is not covered: gap.)
 //
@@ -51,6 +58,20 @@
 //	peer-close  no fault: one side closes the whole connection as soon as all its own tasks are done while the
 //	            other side's readers lag (this stratum found the yamux defect below without any tampering)
 //
+// The strata read for QUIC (host-quic; armed after a fault-free set-up, see genQuic / armQuic): clean = perfect wire;
+// timing = latency per datagram copy (0-400 ms, i.e. reordering) + the deadlines / pauses / late readers of timing;
+// stall = what UDP really does: loss of 3 / 12 / 30 %, duplication, reordering; adversary = qadv.go rewrites 3 / 15 / 40 %
+// of the datagrams in flight (bit flip in the header / the middle / the AEAD tag, truncate, append, replay of an older
+// datagram of the flow, swap, drop, or a mix); peer-close as everywhere. Loss, duplication and the adversary stop
+// 20 ms - 40 s after the data phase began. QUIC discards what fails the AEAD and retransmits, so tampering is usually
+// SURVIVED: nothing demands an error - every reader gets exactly the writer's bytes at each position, once, or an
+// error / reset / deadline (prefix and EOF oracles, weak regime); with a perfect or merely slow wire the strong regime
+// holds (complete delivery). Liveness only after the faults stopped: C02/hang/host-quic/after-faults-stopped (see judge).
+//
+// peer-close on the stream layers has an abrupt variant: the side closes the connection at a drawn instant in the
+// middle of the transfers (a peer that goes away). Everybody may get errors, nobody wrong data or a premature EOF; it is
+// what makes Write fail while data is in flight.
+//
 // Oracles (violation classes; <lay> = layer, <ctx> = "" | /after-tamper | /after-peer-close | /after-timeout | /after-stall):
 //
 //	C02/wrong-bytes/<lay><ctx>              after EVERY Read: the bytes returned continue the planned stream at the
@@ -73,6 +94,8 @@
 //	C02/incomplete/<lay>/<read-kind|write-kind|short>   strong regime only (no fault fired, this reader saw no timeout):
 //	                                        the reader must reach io.EOF with planned == accepted == delivered.
 //	C02/hang/<lay>                          strong regime: no Read/Write returned for 3 virtual minutes.
+//	C02/hang/host-quic/after-faults-stopped QUIC: the same, measured from the instant loss and adversary stopped, for a task
+//	                                        that is inside a Read / Write (a dead connection is an error outcome, not a hang).
 //	C02/read-no-progress/<lay>              more than 8 consecutive (0, nil) Reads with a non-empty buffer.
 //	C02/wrong-bytes/<lay>/read-after-close  prelude: a Read on a closed session returned bytes that are not the queued ones.
 //	C02/fault-free-run-failed/<lay>/<stage> a step of the fault-free part (handshake, connect, dial, new-stream, accept,
@@ -128,6 +151,14 @@
 //	M13  swarm Stream.CloseWrite closes both directions                            4 s  incomplete/*/read-reset, write-reset
 //	M14  noise Read swallows a decrypt error (skips the frame)                     8 s  premature-eof/noise/eof-alone/bytes-missing/after-tamper
 //
+// QUIC layer (2026-09-27; C02_ONLY=host-quic for Q3-Q5 so that the TCP layers do not report first):
+//
+//	Q1   quic glue Read reads into b[:len-1] and reports one byte more               1 s  fault-free-run-failed/host-quic/new-stream (identify / multistream already break)
+//	Q2   quic glue Read swallows io.EOF once ((0, nil), EOF on the next call)        MISSED: (0, nil) is tolerated (io.Reader; weaker readings)
+//	Q3   swarm Stream.Write drops the error                                         30 s  short-write-without-error/host-quic (also host-noise, mux-tls, ... within seconds)
+//	Q4   quic glue Write reports (len(b), nil) when the Write failed                 MISSED: not observable (the connection is gone, the reader has an error; like M9)
+//	Q5   quic glue CloseWrite cancels the send side instead of closing it           19 s  hang/host-quic, incomplete/host-quic/read-reset
+//
 // Seeded by the lead (checked with VERIF_REPO=<worktree> ./check C02 quick, 8 workers):
 //
 //	S1   noise Close() returns the queued read buffer to the pool without clearing it (double Put after a second Close /
@@ -167,6 +198,7 @@ import (
 	"verifsim/harness/common"
 	"verifsim/simhost"
 	"verifsim/simnet"
+	"verifsim/simrand"
 	"verifsim/simrt"
 )
 
@@ -208,6 +240,11 @@ type world struct {
 	lazy   int
 
 	setupFail string // stage of the fault-free part that failed ("" = none)
+
+	// QUIC layer
+	tapeS  *simrt.Stream
+	qadv   *qadv
+	healed atomic.Bool // loss, duplication and the adversary have stopped
 }
 
 func (w *world) layer() string { return layerName[w.p.layer] }
@@ -243,7 +280,16 @@ func run(t *testing.T, tape *simrt.Tape) *common.Outcome {
 			fmt.Fprintln(os.Stderr, l)
 		}
 	}
-	w := &world{p: p, o: o, probes: map[string]int{}}
+	if only := os.Getenv("C02_ONLY"); only != "" && only != layerName[p.layer] {
+		o.Sig = "skipped (C02_ONLY, debugging aid)"
+		return o
+	}
+	if isQuicLayer(p.layer) {
+		// QUIC needs a crypto/rand that is a function of the run (connection ids, TLS randoms): see simrand
+		restore := simrand.Install(p.randSeed)
+		defer restore()
+	}
+	w := &world{p: p, o: o, probes: map[string]int{}, tapeS: tape.S}
 	w.chans = make([][2]*chanState, p.nstreams)
 	w.sideClosed = make([][2]atomic.Bool, p.nstreams)
 	w.strA = make([]network.Stream, p.nstreams)
@@ -417,12 +463,13 @@ func (w *world) setupNodes() bool {
 	})
 	host := isHostLayer(p.layer)
 	var err error
-	w.nodeA, err = simhost.New(w.n, simhost.Opts{Key: simhost.DetKey(1), IP: "10.0.0.1", Port: 4001, Security: secu, WithHost: host})
+	quic := isQuicLayer(p.layer)
+	w.nodeA, err = simhost.New(w.n, simhost.Opts{Key: simhost.DetKey(1), IP: "10.0.0.1", Port: 4001, Security: secu, WithHost: host, QUIC: quic, NoTCPListen: quic})
 	if err != nil {
 		w.o.Trouble = "node A: " + err.Error()
 		return false
 	}
-	w.nodeB, err = simhost.New(w.n, simhost.Opts{Key: simhost.DetKey(2), IP: "10.0.0.2", Port: 4001, Security: secu, WithHost: host})
+	w.nodeB, err = simhost.New(w.n, simhost.Opts{Key: simhost.DetKey(2), IP: "10.0.0.2", Port: 4001, Security: secu, WithHost: host, QUIC: quic, NoTCPListen: quic})
 	if err != nil {
 		w.o.Trouble = "node B: " + err.Error()
 		return false
@@ -440,11 +487,19 @@ func (w *world) setupNodes() bool {
 			w.acceptB(s, st)
 		})
 	}
-	a.PS.AddAddrs(b.ID, []ma.Multiaddr{b.Addr}, peerstore.PermanentAddrTTL)
+	if quic {
+		a.PS.AddAddrs(b.ID, []ma.Multiaddr{b.QAddr}, peerstore.PermanentAddrTTL)
+	} else {
+		a.PS.AddAddrs(b.ID, []ma.Multiaddr{b.Addr}, peerstore.PermanentAddrTTL)
+	}
 	ctx, cancel := context.WithTimeout(context.Background(), time.Minute)
 	defer cancel()
 	if host {
-		if err := a.Host.Connect(ctx, b.AddrInfo()); err != nil {
+		ai := b.AddrInfo()
+		if quic {
+			ai.Addrs = []ma.Multiaddr{b.QAddr}
+		}
+		if err := a.Host.Connect(ctx, ai); err != nil {
 			w.failSetup("connect", err.Error())
 			return false
 		}
@@ -485,6 +540,15 @@ func (w *world) setupNodes() bool {
 				return false
 			}
 		}
+	}
+	if quic {
+		for _, st := range w.strA {
+			if !strings.Contains(st.Conn().RemoteMultiaddr().String(), "/quic-v1") {
+				w.o.Trouble = "QUIC layer: the stream does not run over QUIC but over " + st.Conn().RemoteMultiaddr().String()
+				return false
+			}
+		}
+		return true
 	}
 	if w.rawA == nil {
 		w.o.Trouble = "no raw connection seen"
@@ -547,10 +611,14 @@ func (w *world) main(tape *simrt.Tape) {
 		return
 	}
 	simrt.WaitIdle()
-	w.rawA.SetMode(p.mode)
-	w.rawB.SetMode(p.mode)
-	w.rawA.SetEOFWithData(p.ewd[0])
-	w.rawB.SetEOFWithData(p.ewd[1])
+	if isQuicLayer(p.layer) {
+		w.armQuic()
+	} else {
+		w.rawA.SetMode(p.mode)
+		w.rawB.SetMode(p.mode)
+		w.rawA.SetEOFWithData(p.ewd[0])
+		w.rawB.SetEOFWithData(p.ewd[1])
+	}
 	if w.mitm != nil {
 		w.mitm.armed = true
 	}
@@ -594,6 +662,36 @@ func (w *world) main(tape *simrt.Tape) {
 	w.teardown()
 }
 
+// armQuic: the data phase of the QUIC layer begins - the wire starts to lose, duplicate, delay (reorder) and, in the
+// adversary stratum, rewrite datagrams. Loss, duplication and the adversary stop p.heal later (latency stays: it is not a
+// fault); only from then on is anything demanded about termination.
+func (w *world) armQuic() {
+	p := w.p
+	w.n.SetUDP(simnet.UDPConfig{DropPermille: p.udp.drop, DupPermille: p.udp.dup, Latencies: p.udp.lat})
+	if p.qadv.on {
+		w.qadv = newQadv(p.qadv, w.tapeS.Draw)
+		w.qadv.active.Store(true)
+		w.n.SetUDPMangle(w.qadv.mangle)
+	}
+	if p.udp.drop == 0 && p.udp.dup == 0 && !p.qadv.on {
+		w.healed.Store(true)
+		return
+	}
+	w.aux.Add(1)
+	simrt.GoNamed("quic-heal", func() {
+		defer w.aux.Add(-1)
+		for left := p.heal; left > 0 && !w.closing.Load(); left -= 500 * time.Millisecond {
+			simrt.TimeSleep(min(left, 500*time.Millisecond))
+		}
+		w.n.SetUDP(simnet.UDPConfig{Latencies: p.udp.lat})
+		if w.qadv != nil {
+			w.qadv.stop()
+		}
+		w.healed.Store(true)
+		w.progress.Add(1) // the quiet period of the hang oracle starts over: it is measured from here
+	})
+}
+
 // peerCloser (peer-close stratum): as soon as every task of one side has finished - its writers have half-closed,
 // its readers have seen the end - that side closes the whole connection, the way a process that is done goes
 // away. Nothing of what the OTHER side still has to read is in doubt: it was accepted by Write and the write
@@ -603,7 +701,7 @@ func (w *world) peerCloser() {
 	if w.p.pclose.sideB {
 		x = 1
 	}
-	for {
+	for !w.p.pclose.abrupt {
 		if w.closing.Load() {
 			return
 		}
@@ -618,7 +716,12 @@ func (w *world) peerCloser() {
 		}
 		simrt.TimeSleep(5 * time.Millisecond)
 	}
-	if d := w.p.pclose.delay; d > 0 {
+	d := w.p.pclose.delay
+	if w.p.pclose.abrupt {
+		d = w.p.pclose.at
+		w.probe("connection-closed-abruptly")
+	}
+	if d > 0 {
 		simrt.TimeSleep(d)
 	}
 	if w.closing.Load() {
@@ -851,6 +954,10 @@ func (w *world) teardown() {
 		}
 		simrt.TimeSleep(time.Second)
 	}
+	if isQuicLayer(w.p.layer) {
+		simrt.TimeSleep(5 * time.Second) // CONNECTION_CLOSE, draining and timers of quic-go
+		simrt.WaitIdle()
+	}
 	// simnet pumps may be inside a latency sleep: let them wake up and see the closed connection before main returns
 	simrt.TimeSleep(50 * time.Millisecond)
 	simrt.WaitIdle()
@@ -907,10 +1014,26 @@ func (w *world) finish(res simrt.Result) {
 	if stallFired {
 		o.Fault("stall")
 	}
+	quicFaulted := false
+	if isQuicLayer(p.layer) && w.n != nil {
+		uc := w.n.UDPCounts()
+		for _, k := range []string{"udp-lost", "udp-duplicated", "udp-delayed"} {
+			if uc[k] > 0 {
+				o.Fault(k)
+			}
+		}
+		quicFaulted = p.udp.drop > 0 || p.udp.dup > 0 || p.qadv.on
+		if w.qadv != nil {
+			for _, a := range w.qadv.actions() {
+				o.Fault("quic-adversary-" + a)
+			}
+			o.Logf("QUIC adversary: %v; udp: %v", w.qadv.counts, uc)
+		}
+	}
 	if peerClosed {
 		o.Fault("peer-closed-connection")
 	}
-	if p.mode != simnet.Whole {
+	if p.mode != simnet.Whole && !isQuicLayer(p.layer) {
 		o.Fault("fragmentation-" + modeName(p.mode))
 	}
 	if len(p.lat) > 0 {
@@ -921,7 +1044,7 @@ func (w *world) finish(res simrt.Result) {
 	if w.lazy > 0 {
 		w.probes["lazy-multistream-stream"] += w.lazy
 	}
-	faulted := advFired || stallFired || peerClosed
+	faulted := advFired || stallFired || peerClosed || quicFaulted
 
 	var sig []string
 	sig = append(sig, lay, stratumName[p.stratum], modeName(p.mode), fmt.Sprintf("adv=%v stall=%v pc=%v hung=%v sac=%d ewd=%v fail=%s", advFired, stallFired, peerClosed, w.hung, len(p.sac), p.ewd, w.setupFail))
@@ -935,13 +1058,13 @@ func (w *world) finish(res simrt.Result) {
 			totalData += c.dataReads
 			sig = append(sig, fmt.Sprintf("%s:%d/%d/%d r%d %s w=%s t%d", c.id, cp.total, c.accepted, c.off, c.reads, c.rEnd, c.wErr, c.timeouts))
 			for _, wr := range cp.writes {
-				if wr > noiseMaxPlain && !isTLSLayer(p.layer) && p.layer != layPnet && c.accepted >= wr {
+				if wr > noiseMaxPlain && !isTLSLayer(p.layer) && !isQuicLayer(p.layer) && p.layer != layPnet && c.accepted >= wr {
 					w.probes["write-of-2-or-more-noise-frames"]++
 					break
 				}
 			}
 			for _, wr := range cp.writes {
-				if wr >= yamuxWindow && !isConnLayer(p.layer) {
+				if wr >= yamuxWindow && !isConnLayer(p.layer) && !isQuicLayer(p.layer) {
 					w.probes["write-reaching-yamux-window"]++
 					break
 				}
@@ -968,6 +1091,26 @@ func (w *world) finish(res simrt.Result) {
 				w.dump(fmt.Sprintf("%s W%d", c.id, i), c.ws[i].log.lines(), bad)
 			}
 			w.dump(c.id+" R", c.rlog.lines(), bad)
+		}
+	}
+	if quicFaulted && judged {
+		all, died := true, false
+		for s := range w.chans {
+			for d := 0; d < 2; d++ {
+				c := w.chans[s][d]
+				if c.rEnd != "eof" || c.off != c.p.total {
+					all = false
+				}
+				if strings.HasPrefix(c.rEnd, "error:") {
+					died = true
+				}
+			}
+		}
+		if all {
+			w.probes["quic-wire-faults-survived-every-byte-delivered"]++
+		}
+		if died {
+			w.probes["quic-reader-got-an-error-under-wire-faults"]++
 		}
 	}
 	var pk []string
@@ -1070,6 +1213,16 @@ func (w *world) judge(c *chanState, faulted, advFired, stallFired bool) {
 	}
 	if c.off > c.accepted && c.wErr == "" && c.wDone.Load() {
 		w.violate("C02/delivered-more-than-accepted/"+lay+ctx, fmt.Sprintf("%s: %d bytes delivered, Write return values sum to %d", c.id, c.off, c.accepted))
+	}
+	if isQuicLayer(w.p.layer) && w.hung && w.healed.Load() && !w.peerClosed.Load() &&
+		((c.rStarted && !c.rDone.Load()) || (c.wStarted && !c.wDone.Load())) {
+		// LIVENESS AFTER THE FAULTS STOPPED (QUIC layer): loss, duplication and the adversary ended, then no Read or
+		// Write returned anywhere for quietLimit (3 min) of virtual time, and this task is still inside a call. Whatever
+		// happened before, by then the connection has either recovered (a probe timeout after heavy loss backs off to
+		// tens of seconds at most, because an idle connection is closed after 30 s and kept alive every 15 s) or died
+		// (every pending Read / Write then fails): a task blocked beyond that is a hang, not an error outcome.
+		w.violate("C02/hang/"+lay+"/after-faults-stopped", fmt.Sprintf("%s: the wire has been fault-free for more than %v and no Read or Write returned in that time; reader done=%v at offset %d of %d, writer done=%v accepted %d",
+			c.id, quietLimit, c.rDone.Load(), c.off, cp.total, c.wDone.Load(), c.accepted))
 	}
 	if faulted || c.hadTimeout {
 		return // weak regime: a correct prefix and the EOF rules above
